@@ -50,13 +50,15 @@ func (c *Ctx) ruleSequentialAs(rule string) {
 }
 
 // ruleOptionAliasing: an Option closure must not store captured (Option-owned) reference values into the core.
-func (c *Ctx) ruleOptionAliasing() {
+func (c *Ctx) ruleOptionAliasing() { c.ruleOptionAliasingAs("C18-OPTION-ALIASING") }
+
+func (c *Ctx) ruleOptionAliasingAs(rule string) {
 	r := c.R
-	r.Rule("C18-OPTION-ALIASING", "a function returning core.Option (a closure applied to every core built with it) stores into the core only values made inside the closure or copied element by element: no map/slice/pointer captured from the enclosing function is assigned to a field of the core", 1)
+	r.Rule(rule, "a function returning core.Option (a closure applied to every core built with it) stores into the core only values made inside the closure or copied element by element: no map/slice/pointer captured from the enclosing function is assigned to a field of the core", 1)
 	pk := c.P.Pkg("core")
 	optT := c.P.LookupType("core", "Option")
 	if pk == nil || optT == nil {
-		r.Undecided("C18-OPTION-ALIASING", "anchor", "core.Option not found", "")
+		r.Undecided(rule, "anchor", "core.Option not found", "")
 		return
 	}
 	n := 0
@@ -101,15 +103,15 @@ func (c *Ctx) ruleOptionAliasing() {
 			})
 			key := f.Name() + " | option closure"
 			if bad == "" {
-				r.Ok("C18-OPTION-ALIASING", key, "nothing captured is stored by reference", c.pos(fl.Pos()))
+				r.Ok(rule, key, "nothing captured is stored by reference", c.pos(fl.Pos()))
 			} else {
-				r.Bad("C18-OPTION-ALIASING", key, "the closure stores a captured reference into the core ("+bad+"): every core built with this Option value shares, and mutates, the same object", c.pos(fl.Pos()))
+				r.Bad(rule, key, "the closure stores a captured reference into the core ("+bad+"): every core built with this Option value shares, and mutates, the same object", c.pos(fl.Pos()))
 			}
 			return false
 		})
 	}
 	if n == 0 {
-		r.Undecided("C18-OPTION-ALIASING", "sites", "no Option constructor with a closure found", "")
+		r.Undecided(rule, "sites", "no Option constructor with a closure found", "")
 	}
 }
 
